@@ -42,6 +42,12 @@ CHECKS["C14"] = dict(tech="TLC model checking of Alloc.tla (UnresolvableSound, W
 CHECKS["C19"] = dict(tech="TLC enumeration of FuncParse.tla (every must-reject node kind in every argument position of every allowed node type to depth 3, two spellings; arithmetic trees with exact rational evaluation and dependency sets) + parse_function on every rendered string + TLC judgment (FuncParseTrace.tla: MustReject, MustAccept, NoSideEffect, Value, ArrayScalar, Deps)",
                      text="The classification accept / reject is a function of 'contains a must-reject node' (checked by TLC for monotonicity under every context); every enumerated tree is rendered and parsed in a scratch directory, and TLC compares the decision; accepted arithmetic strings are evaluated on scalars and arrays and compared with exact rational evaluation (safe division) and the exact dependency set.",
                      ref="DESIGN.md section 6 C19", note=PURE_NOTE)
+CHECKS["C15"] = dict(tech="TLC model checking of OptLoop.tla (NoWorse, Restored, WorksOnCopies) under the failure-handling constant observed per entry point + fault enumeration: an exception injected at the k-th simulation for every k of a reference run of optimize / Project.run_optimization / Project.calibrate + TLC judgment of every real run (OptLoopTrace.tla: Restored, NoWorse on independently recomputed objective terms, InBounds, HardTargetKept)",
+                     text="The control flow (copy inputs, shorten end year, initial evaluation, optimiser iterations that may crash or be rejected, keep best, restore, return) is a TLA+ state machine checked for all interleavings of crash / reject / improve; the harness observes on the real code whether each entry point restores on failure and model-checks the design with that constant; every crash point of reference runs is executed for several optimiser seeds and TLC compares digests of the caller's objects before / after and sums the documented objective terms recomputed from fresh simulations.",
+                     ref="DESIGN.md section 6 C15", note="Trusted base: TLC; the structural digest walker (harness/digest.py); the ASD optimiser is driven with fixed random seeds, so 'any random path' is sampled (seeds listed in evidence), not enumerated.")
+CHECKS["C17"] = dict(tech="TLC exhaustive model checking of Sampling.tla (Distinct, SourceUntouched over every assignment and order of S samples on W forked workers, any prior generator position, serial and parallel) with the reseed constant observed on the real pool initialiser + replay of the enumerated schedules with real forks + real pool / Ensemble runs + TLC judgment (SamplingTrace.tla: Distinct, SourceUntouched, ZeroSigma, Sampleable)",
+                     text="Workers, streams and assignments are modelled explicitly; the harness probes what the real initialiser does to a forked generator, TLC checks distinctness for every schedule under that constant, and the schedules are re-executed with real os.fork children calling the real initialiser and sampler; recorded digests of sampled inputs / results (also from multiprocessing.Pool and sc.parallelize runs) are compared by TLC; sources are digested before and after; zero / absent uncertainty must reproduce the unsampled run; every library program book, with explicit interaction outcomes added, must be sampleable.",
+                     ref="DESIGN.md section 6 C17", note="Trusted base: TLC; digest walker; the operating system's fork semantics. Pool scheduling of the real multiprocessing runs is whatever the day produces (recorded), the enumerated schedules are exact.")
 NOT_YET = {}
 
 
@@ -63,9 +69,9 @@ def main():
              hooks=dict(guard="ATOMICA_VERIF", enable="no source hooks: observation is by run-time wrappers installed by harness/observe.py (ATOMICA_VERIF=1 is exported by ./check for completeness)",
                         baseline_off_cmd="cd /repo && /venv/bin/python -m pytest -ra -q -p no:cacheprovider --timeout=900 --continue-on-collection-errors", source_commits=[], add_only=True),
              engines=[dict(name="tla-engine", path="spec/Engine.tla", serves_properties=["C01", "C02", "C03", "C04", "C05"], kind_free_text="explicit TLA+ specification of the integration loop, TLC exhaustive + replay + trace validation"),
-                      dict(name="tla-pure", path="spec/", serves_properties=["C07", "C11", "C12", "C14", "C19"], kind_free_text="per-mechanism TLA+ modules (case enumeration + theorems checked by TLC) with a trace module that judges the values returned by the real code")],
+                      dict(name="tla-pure", path="spec/", serves_properties=["C07", "C11", "C12", "C14", "C15", "C17", "C19"], kind_free_text="per-mechanism TLA+ modules (case enumeration + theorems checked by TLC) with a trace module that judges the values returned by the real code")],
              checks=checks, not_applicable=na,
-             notes="Six genuine defects repaired in /repo with 'fix:' commits (see known_findings.json). Exit codes: 0 held, 1 violation, 2 machinery failure.")
+             notes="Eleven genuine defects repaired in /repo with 'fix:' commits (see known_findings.json). Exit codes: 0 held, 1 violation, 2 machinery failure.")
     json.dump(m, open(os.path.join(HERE, "MANIFEST.json"), "w"), indent=1)
     print("checks", [c["property_id"] for c in checks], "not_applicable", len(na))
 
